@@ -44,19 +44,22 @@ vars == <<l, prev, cnt, nruns, nnt>>
 
 Str(i) == ToString(i)
 Msg(tag, name, ctx) == PrintT(<<"VMSG", l, 0, tag, name, 0, ctx>>)
+(* offsets as "0.1.5": no tuple brackets inside message strings *)
+AStr(a) == FoldLeft(LAMBDA acc, x : acc \o (IF acc = "" THEN "" ELSE ".") \o Str(x), "", a)
 GroupStr(ev) == "k=" \o KernelName[ev.kid + 1] \o " sz=" \o Str(ev.sz) \o " n=" \o Str(ev.n) \o " p=" \o Str(ev.p) \o " c=" \o Str(ev.c)
 
 (* position (1-based) of the first difference of two byte sequences of equal length, 0 if equal *)
 FirstDiff(x, y) == LET d == { i \in 1 .. Len(x) : x[i] # y[i] } IN IF d = {} THEN 0 ELSE Min(d)
 
+(* whole-sequence equalities: TLC evaluates each expected sequence once per group *)
 BufOK(buf, v, E) ==
-    /\ Len(buf.c) = Len(E[buf.i + 1]) /\ FirstDiff(buf.c, E[buf.i + 1]) = 0
-    /\ Len(buf.l) = Len(GuardL(v, buf.i)) /\ FirstDiff(buf.l, GuardL(v, buf.i)) = 0
-    /\ Len(buf.r) = Len(GuardR(v, buf.i)) /\ FirstDiff(buf.r, GuardR(v, buf.i)) = 0
+    /\ buf.c = E[buf.i + 1]
+    /\ buf.l = GuardL(v, buf.i)
+    /\ buf.r = GuardR(v, buf.i)
 
 (* shape of run r (which alignment, which variant, which buffers logged): driver protocol *)
 RunShapeOK(ev, run, r, als) ==
-    /\ Len(run.a) = Len(als[(r + 1) \div 2]) /\ FirstDiff(run.a, als[(r + 1) \div 2]) = 0
+    /\ run.a = als[(r + 1) \div 2]
     /\ run.v = (r + 1) % 2
     /\ run.f \in {0, 1, 2}
     /\ run.f = 0 => LET lg == Logged(ev.kid, ev.n, run.v)
@@ -81,7 +84,11 @@ Describe(ev, run, E) ==
              THEN <<"write-before-buffer", "buf=" \o Str(buf.i) \o " guard-byte=-" \o Str(17 - FirstDiff(buf.l, GuardL(run.v, buf.i)))>>
              ELSE <<"write-beyond-size", "buf=" \o Str(buf.i) \o " guard-byte=+" \o Str(FirstDiff(buf.r, GuardR(run.v, buf.i)) - 1)>>
 
-CheckGroup(ev) ==
+(* GroupCheck is used as ONE state-level expression (GroupCheck(ev) = TRUE): TLC then caches the
+   LET values (expected buffers, alignment sequence) instead of re-evaluating them at every use,
+   which it does for definitions expanded in an action context.  Every conjunct is TRUE (Msg
+   prints and returns TRUE), a failing group does not stop the validation. *)
+GroupCheck(ev) ==
     LET g   == <<ev.sz, ev.n, ev.p, ev.c>>
         als == AlSeq(ev.tier, ev.kid, ev.n, ev.p, ev.c)
         shapeBad == { r \in 1 .. Len(ev.runs) : ~ RunShapeOK(ev, ev.runs[r], r, als) }
@@ -93,13 +100,20 @@ CheckGroup(ev) ==
         /\ IF shapeBad = {}
            THEN LET E   == ExpectedBufs(ev.kid, ev.sz, ev.n, ev.p, ev.c)
                     bad == { r \in 1 .. Len(ev.runs) : ~ RunOK(ev, ev.runs[r], E) }
-                IN  IF bad = {} THEN TRUE
-                    ELSE LET run == ev.runs[Min(bad)]
-                             d   == Describe(ev, run, E)
-                         IN  Msg(IF d[1] = "INFRA-buffer-length" THEN "INFRA" ELSE "C13", d[1],
-                                 GroupStr(ev) \o " a=" \o ToString(run.a) \o " v=" \o Str(run.v) \o " " \o d[2]
-                                 \o " failing-runs=" \o Str(Cardinality(bad)) \o "/" \o Str(Len(ev.runs)))
+                    kinds == { Describe(ev, ev.runs[r], E)[1] : r \in bad }
+                IN  \* one message per kind of failure: its first run and the number of runs failing that way
+                    \A kd \in kinds :
+                        LET rs  == { r \in bad : Describe(ev, ev.runs[r], E)[1] = kd }
+                            run == ev.runs[Min(rs)]
+                            d   == Describe(ev, run, E)
+                        IN  Msg(IF kd = "INFRA-buffer-length" THEN "INFRA" ELSE "C13", kd,
+                                GroupStr(ev) \o " a=" \o AStr(run.a) \o " v=" \o Str(run.v) \o " " \o d[2]
+                                \o " failing-runs=" \o Str(Cardinality(rs)) \o "/" \o Str(Len(ev.runs)))
            ELSE TRUE
+
+CheckGroup(ev) ==
+    LET g == <<ev.sz, ev.n, ev.p, ev.c>>
+    IN  /\ GroupCheck(ev) = TRUE
         /\ prev' = Rank(g)
         /\ cnt' = cnt + 1
         /\ nruns' = nruns + Len(ev.runs)
